@@ -227,6 +227,7 @@ func c10(tier string) int {
 	}
 	c10Malformed(run, u, gen, la, lb)
 	c10RateLimit(run, u, gen, la, lb)
+	c10Overlap(run, u, gen, la, lb)
 	c10EndToEnd(run, u, gen, la, lb)
 	for _, c := range []string{"accepted->200", "no-valid-signature->403", "unknown-log->404", "old-size-invalid->400", "stale->409", "root-mismatch->409", "invalid-proof->422", "malformed->400"} {
 		if run.HistGet("expected_answers", c) == 0 {
@@ -238,7 +239,7 @@ func c10(tier string) int {
 	run.Set("traces_validated_against_impl", trans)
 	run.Set("evaluations", trans+run.Get("malformed_bodies")+run.Get("rate_limit_requests"))
 	run.Set("exhaustive", true)
-	run.Set("rule", fmt.Sprintf("explicit-state BFS where every transition is an HTTP request to the real add-checkpoint handler (built as FeedBastion builds it, behind the same 16 KiB MaxBytesHandler; bodies delivered in one piece with Content-Length in the in-memory run and as a chunked upload one byte per Read in the sql run, malformed bodies both ways) in front of the real witness behind the real witnessAdapter; states are witness states reached through the endpoint (sizes 0..%d, forks at 0 and 3, both stores); alphabet = the C01 alphabet rendered as request bodies + unknown origin; oracle = wmodel composed with the protocol's status map, 200 bodies verified as cosignature lines over the submitted text, 409 stale bodies compared with the true size; plus malformed bodies and three rate-limit regimes. distinct_nontrivial = distinct (state, expected answer, request)", n))
+	run.Set("rule", fmt.Sprintf("explicit-state BFS where every transition is an HTTP request to the real add-checkpoint handler (built as FeedBastion builds it, behind the same 16 KiB MaxBytesHandler; bodies delivered in one piece with Content-Length in the in-memory run and as a chunked upload one byte per Read in the sql run, malformed bodies both ways; plus every ordered pair of 7 requests overlapped deterministically inside one handler: B served completely while A is between body parsing and the witness, answers compared with the sequential order on a twin) in front of the real witness behind the real witnessAdapter; states are witness states reached through the endpoint (sizes 0..%d, forks at 0 and 3, both stores); alphabet = the C01 alphabet rendered as request bodies + unknown origin; oracle = wmodel composed with the protocol's status map, 200 bodies verified as cosignature lines over the submitted text, 409 stale bodies compared with the true size; plus malformed bodies and three rate-limit regimes. distinct_nontrivial = distinct (state, expected answer, request)", n))
 	run.Assumption("the search is in process (httptest recorder); a 53-request transition tour (every verdict class in every state along none -> 2 -> 4 -> 6 -> 8) is also sent over a real TLS 1.3 + HTTP/2 reverse connection through the exported FeedBastion and compared, answer by answer, with the in-process handler on a twin witness")
 	return run.Finish()
 }
@@ -369,4 +370,105 @@ func (r *readCounter) Read(p []byte) (int, error) {
 	n, err := r.r.Read(p)
 	r.n += n
 	return n, err
+}
+
+// reentrantWitness serves a second request through the same handler at the
+// moment the first request's Update is about to reach the witness: a
+// deterministic overlap of two requests inside one handler (request A's body
+// has been parsed, request B is parsed and answered, then A continues).
+type reentrantWitness struct {
+	in    feeder.Witness
+	armed bool
+	hook  func()
+}
+
+func (w *reentrantWitness) GetLatestCheckpoint(ctx context.Context, id string) ([]byte, error) {
+	return w.in.GetLatestCheckpoint(ctx, id)
+}
+
+func (w *reentrantWitness) Update(ctx context.Context, id string, old uint64, cp []byte, p [][]byte) ([]byte, error) {
+	if w.armed {
+		w.armed = false
+		w.hook()
+	}
+	return w.in.Update(ctx, id, old, cp, p)
+}
+
+// c10Overlap: every ordered pair (A, B) of requests from a small menu, B
+// served completely while A is between body parsing and the witness; both
+// answers must be what the sequential order B; A gives on a twin witness, and
+// every 200 body must be a valid cosignature over the text THAT request
+// submitted.
+func c10Overlap(run *ev.Run, u *uni.U, gen *wh.CPGen, la, lb wh.LogCfg) {
+	type reqT struct {
+		name string
+		l    wh.LogCfg
+		body []byte
+		text string
+	}
+	mk := func(name string, l wh.LogCfg, b *uni.Branch, old, n int, shape string, proof [][]byte) reqT {
+		cp, meta := gen.Get(l, b, n, shape)
+		return reqT{name, l, c10Body(uint64(old), proof, cp), meta.Text}
+	}
+	m := u.Main
+	menu := []reqT{
+		mk("growth A 2->4", la, m, 2, 4, "plain", m.Proof(2, 4)),
+		mk("growth A 2->5 (ext)", la, m, 2, 5, "ext", m.Proof(2, 5)),
+		mk("refresh A @2", la, m, 2, 2, "plain", nil),
+		mk("bad proof A 2->4", la, m, 2, 4, "plain", m.Proof(1, 4)),
+		mk("growth B 2->3", lb, m, 2, 3, "plain", m.Proof(2, 3)),
+		mk("growth B 2->6 (bigger)", lb, m, 2, 6, "ext", m.Proof(2, 6)),
+		mk("stale B old=1", lb, m, 1, 3, "plain", m.Proof(1, 3)),
+	}
+	seed := func(h http.Handler) {
+		for _, l := range []wh.LogCfg{la, lb} {
+			cp, _ := gen.Get(l, m, 2, "plain")
+			if r := c10Serve(h, c10Body(0, nil, cp)); r.Status != 200 {
+				ev.Internal("C10 overlap: seeding failed with %d", r.Status)
+			}
+		}
+	}
+	for _, a := range menu {
+		for _, b := range menu {
+			// Twin: B then A, sequentially.
+			te := wh.NewEnv(u, wh.Config{Store: "mem", Logs: []wh.LogCfg{la, lb}})
+			th := bastion.VerifNewHandler(omniwitness.VerifWitnessAdapter(te.W), c10Logs(la, lb), u.W1.CosigVerif, rate.Inf, 1, true)
+			seed(th)
+			wantB := c10Serve(th, b.body)
+			wantA := c10Serve(th, a.body)
+			te.Close()
+			// Overlapped.
+			e := wh.NewEnv(u, wh.Config{Store: "mem", Logs: []wh.LogCfg{la, lb}})
+			rw := &reentrantWitness{in: omniwitness.VerifWitnessAdapter(e.W)}
+			h := bastion.VerifNewHandler(rw, c10Logs(la, lb), u.W1.CosigVerif, rate.Inf, 1, true)
+			seed(h)
+			var gotB httpResp
+			rw.hook = func() { gotB = c10Serve(h, b.body) }
+			rw.armed = true
+			gotA := c10Serve(h, a.body)
+			reached := !rw.armed
+			e.Close()
+			run.Add("overlapped_request_pairs", 1)
+			if !reached {
+				// A never reached the witness (refused by the handler itself): no overlap.
+				continue
+			}
+			rep := map[string]any{"kind": "overlap", "a": a.name, "b": b.name}
+			chk := func(which string, q reqT, got, want httpResp) {
+				sig := fmt.Sprintf("overlapping-requests %s same-log=%v", which, a.l.Origin == b.l.Origin)
+				if got.Status != want.Status {
+					run.Report(sig+fmt.Sprintf(" status=%d want=%d", got.Status, want.Status), fmt.Sprintf("request A %q with request B %q served while A was between parsing and the witness: %s (%q) answered %d, sequentially (B then A) it is %d", a.name, b.name, which, q.name, got.Status, want.Status), rep)
+					return
+				}
+				if got.Status == 200 {
+					lines := strings.Split(strings.TrimSuffix(got.Body, "\n"), "\n")
+					if l, ok := countValid(u.W1.CosigVerif, q.text, lines); l < 1 || ok != l {
+						run.Report(sig+" cosignature-not-over-submitted-text", fmt.Sprintf("request A %q overlapped by B %q: the 200 body of %s does not verify over the text that request submitted", a.name, b.name, which), rep)
+					}
+				}
+			}
+			chk("A", a, gotA, wantA)
+			chk("B", b, gotB, wantB)
+		}
+	}
 }
